@@ -309,3 +309,15 @@ def judge_state_diff(ref, obs, full_log, upto):
     return ('cells:lookup-KeyError-stale', [list(x) for x in real[:6]]), labels
   loc = '%s.%s' % (tcat, c if kind == 'meta' else kind)
   return ('cells:' + loc, [list(x) for x in real[:6]]), labels
+
+
+def undo_raised_sig(doc, uas, error):
+  """Root-cause bucket for an undo that raised: one known cause is the undo of a bundle that both edits source
+  records and re-shapes a summary table (regroup / detach / create / remove of a summary section): its undo list
+  updates a summary row at a point where that row does not exist."""
+  summary_kinds = ('UpdateSummaryViewSection', 'DetachSummaryViewSection', 'CreateViewSection', 'RemoveViewSection',
+                   'RemoveView', 'RemoveTable', 'RemoveColumn', 'ModifyColumn')
+  if 'non-existent record' in str(error) and len(uas) >= 2 and any(u[0] in summary_kinds for u in uas) and \
+     (doc.summary_tables() or any(u[0] in ('UpdateSummaryViewSection', 'DetachSummaryViewSection') for u in uas)):
+    return 'summary-row-updated-before-it-exists'
+  return bundle_sig(uas)
